@@ -171,8 +171,11 @@ impl FraudProof for BadEncodingFraudProof {
 
         for (n, share) in rebuilt_shares.iter().enumerate() {
             let ns = if axis_in_ods && n < ods_width {
-                // safety: length must be correct
-                Namespace::from_raw(&share[..NS_SIZE]).unwrap()
+                // the namespace is taken as it is, the same way it is when the root gets
+                // computed for the header. Reconstructed data can start with anything,
+                // it is up to the root comparison to tell if it was the committed data.
+                // safety: all shares have the same, correct length after reconstruction
+                Namespace::new_unchecked(share[..NS_SIZE].try_into().unwrap())
             } else {
                 Namespace::PARITY_SHARE
             };
